@@ -168,28 +168,10 @@ impl<R: DynamicChannelRegion> RegionHandler for DynamicChannelPlan<R> {
         ch_mask: ChannelMask<2>,
     ) -> Option<()> {
         match ch_mask_ctl {
-            0..=3 => {
-                let base_index = ch_mask_ctl as usize * 2;
-                channel_mask.set_bank(base_index, ch_mask.get_index(0));
-                channel_mask.set_bank(base_index + 1, ch_mask.get_index(1));
-            }
-            4 => {
-                // Channels 64 to 71: only the low byte maps to channels, the high byte
-                // is RFU and lies past the 72-channel mask.
-                channel_mask.set_bank(8, ch_mask.get_index(0));
-            }
-            5 => {
-                let ch_mask: u16 =
-                    ch_mask.get_index(0) as u16 | ((ch_mask.get_index(1) as u16) << 8);
-                channel_mask.set_bank(0, ((ch_mask & 0b1) * 0xFF) as u8);
-                channel_mask.set_bank(1, ((ch_mask & 0b10) * 0xFF) as u8);
-                channel_mask.set_bank(2, ((ch_mask & 0b100) * 0xFF) as u8);
-                channel_mask.set_bank(3, ((ch_mask & 0b1000) * 0xFF) as u8);
-                channel_mask.set_bank(4, ((ch_mask & 0b10000) * 0xFF) as u8);
-                channel_mask.set_bank(5, ((ch_mask & 0b100000) * 0xFF) as u8);
-                channel_mask.set_bank(6, ((ch_mask & 0b1000000) * 0xFF) as u8);
-                channel_mask.set_bank(7, ((ch_mask & 0b10000000) * 0xFF) as u8);
-                channel_mask.set_bank(8, ((ch_mask & 0b100000000) * 0xFF) as u8);
+            0 => {
+                // Channels 0 to 15
+                channel_mask.set_bank(0, ch_mask.get_index(0));
+                channel_mask.set_bank(1, ch_mask.get_index(1));
             }
             6 => {
                 // all channels on
